@@ -1560,6 +1560,21 @@ fn run(v: &Value) -> Result<String, String> {
                     if calls == 1 && ran2 != order.contains(&4) as usize { return Err(format!("order {order:?}: the second forwarding middleware ran {ran2} times for one request to {path:?} (kind {want}); expected {}", order.contains(&4) as usize)); }
                 }
             }
+            // ---- a struct mounted at the root, spelled "" or "/": every path reaches it with its RFC 6901 tokens ----
+            for root in ["", "/"] {
+                let seen = Arc::new(Mutex::new(Vec::new()));
+                let r = Router::new().with_struct_shared(root, Arc::new(Mutex::new(Rec { seen: seen.clone() })));
+                for path in ["", "/", "/a", "/a/b", "/a~1b/c", "/a/"] {
+                    let Some(toks) = tokens(path) else { continue };
+                    let Some(h) = r.get(path) else { return Err(format!("a struct mounted at the root (spelled {root:?}) does not receive path {path:?}")) };
+                    seen.lock().unwrap().clear();
+                    let req = Message::builder().id(3).query_str(path).build();
+                    let resp = h.handle(&req).map_err(|e| e.to_string())?;
+                    let sn = seen.lock().unwrap().clone();
+                    if resp.header.ec != 0 || sn.len() != 1 || sn[0] != toks { return Err(format!("a struct mounted at the root (spelled {root:?}) saw segments {sn:?} for path {path:?}; its RFC 6901 tokens are {toks:?} (ec={})", resp.header.ec)); }
+                    cases += 1;
+                }
+            }
             // ---- owned vs borrowed vs middleware-wrapped, built-in handler kinds x body formats x bodies ----
             #[derive(serde::Serialize, serde::Deserialize)]
             struct P { a: i64 }
@@ -1572,6 +1587,10 @@ fn run(v: &Value) -> Result<String, String> {
                     .with_typed("/typed_s", |p: S2| Ok::<_, (repe::ErrorCode, String)>(S2 { s: format!("{}!", p.s) }))
                     .with_typed_slice("/slice", |x: Vec<f64>| Ok::<_, (repe::ErrorCode, String)>(x.iter().map(|y| y * 2.0).collect::<Vec<f64>>()))
                     .with_typed_slice_ref("/sliceref", |x: &[u32]| Ok::<_, (repe::ErrorCode, String)>(x.iter().map(|y| y.wrapping_add(1)).collect::<Vec<u32>>()));
+                // the two mount kinds: a registry (decodes the body itself) and a struct
+                let reg = Arc::new(Registry::new());
+                reg.register_value("/slot", json!({"keep": 1})).unwrap();
+                r = r.with_registry("/reg", reg).with_struct_shared("/st", Arc::new(Mutex::new(Rec { seen: Arc::new(Mutex::new(Vec::new())) })));
                 for _ in 0..mw { r.register_middleware(|req: &Message, next: Next<'_>| -> Result<Message, RepeError> { next.run(req) }); }
                 r
             };
@@ -1586,7 +1605,7 @@ fn run(v: &Value) -> Result<String, String> {
             // the dispatch layer echoes the request query into a response whose query is empty (documented on HandlerErased);
             // responses are compared after that step, which is where a client sees them
             let show = |r: &Result<Message, RepeError>, rq: &[u8]| match r { Ok(m) => format!("Ok(ec={} qf={} bf={} q={:?} body={:?})", m.header.ec, m.header.query_format, m.header.body_format, if m.query.is_empty() { rq } else { &m.query[..] }, m.body), Err(e) => format!("Err({e})") };
-            for path in ["/json", "/typed", "/typed_s", "/slice", "/sliceref"] {
+            for path in ["/json", "/typed", "/typed_s", "/slice", "/sliceref", "/reg/slot", "/st/x"] {
                 for &bf in &formats { for body in &bodies {
                     let mut req = Message::builder().id(9).query_str(path).body_bytes(body.clone()).build();
                     req.header.body_format = bf;
